@@ -14,7 +14,7 @@ import (
 )
 
 func Spec_PowerSet(original []string) *[][]string {
-	powerSetSize := PowerSetSize(len(original))
+	powerSetSize := Spec_PowerSetSize(len(original))
 	result := make([][]string, 0, powerSetSize)
 
 	var index int
@@ -35,7 +35,7 @@ func Spec_PowerSet(original []string) *[][]string {
 }
 
 func Spec_EachSubSet(original []string, consumer func(subSet []string)) {
-	powerSetSize := PowerSetSize(len(original))
+	powerSetSize := Spec_PowerSetSize(len(original))
 	for index := 1; index < powerSetSize; index++ {
 		var subSet []string
 		for j, elem := range original {
